@@ -743,6 +743,17 @@ func (fx *FnExec) execInstr(st *State, in ssa.Instruction) {
 		fx.execUnOp(st, in)
 	case *ssa.BinOp:
 		fx.define(in, fx.binop(st, in.Op, fx.val(in.X), fx.val(in.Y), in.X.Type(), in.Y.Type(), in.Type(), in.Y))
+		// the test `i < n` of a counting loop `for i := 0; i < n; i++` whose bound cannot change inside the loop: at the
+		// head the counter has not passed the bound (it is 0, or the previous iteration's test let it through and it
+		// was incremented once)
+		if li := fx.loops[in.Block()]; li != nil && in.Op == token.LSS && in.Block() == li.header {
+			if a := countingLoopCell(fx.fn, li); a != nil {
+				if ld, ok := in.X.(*ssa.UnOp); ok && ld.X == ssa.Value(a) && fx.loopInvariantBound(li, in.Y) {
+					x, y := fx.val(in.X), fx.val(in.Y)
+					fx.sc.Assume(Implies(st.R, And(App(">=", SBool, x, TZero), Or(App("<=", SBool, x, TZero), App("<=", SBool, x, y)))))
+				}
+			}
+		}
 	case *ssa.FieldAddr:
 		base := fx.ptrOf(in.X)
 		st0 := base.T
@@ -833,10 +844,22 @@ func (fx *FnExec) execInstr(st *State, in ssa.Instruction) {
 	case *ssa.Defer:
 		st.defers = append(st.defers, in)
 	case *ssa.RunDefers:
-		ds := st.defers
-		st.defers = nil
+		ds, guards := st.defers, st.dguard
+		st.defers, st.dguard = nil, nil
 		for i := len(ds) - 1; i >= 0; i-- {
-			fx.doCall(st, ds[i], ds[i].Common())
+			g, conditional := guards[ds[i]]
+			if !conditional {
+				fx.doCall(st, ds[i], ds[i].Common())
+				continue
+			}
+			// registered on some paths only: the call runs under its guard, the rest of the state skips it
+			run, skip := st.Clone(), st.Clone()
+			run.R = fx.sc.Define("R$defer", And(st.R, g))
+			skip.R = fx.sc.Define("R$nodefer", And(st.R, Not(g)))
+			fx.doCall(run, ds[i], ds[i].Common())
+			run.defers, run.dguard = nil, nil
+			merged := fx.Merge("cdefer", []edgeIn{{cond: run.R, st: run}, {cond: skip.R, st: skip}})
+			*st = *merged
 		}
 	case *ssa.MakeInterface:
 		fx.define(in, fx.makeIface(fx.val(in.X), in.X.Type()))
@@ -924,7 +947,13 @@ func (fx *FnExec) execInstr(st *State, in ssa.Instruction) {
 		}
 		fx.tuples[in] = tup
 	case *ssa.Go:
-		unsupported("concurrency instruction %T in %s", in, fx.key)
+		// `go f(x)`: interleavings are not modelled. A spawned call is accepted only when the callee can write nothing
+		// the contracts speak about (a trusted `pure` contract, or an empty inferred write set): then when it runs is
+		// unobservable here. Anything else stays outside the generator.
+		if !fx.spawnIsEffectFree(in.Common()) {
+			unsupported("concurrency instruction %T in %s", in, fx.key)
+		}
+		fx.assumed["go statement: the spawned call "+spawnKey(in.Common())+" writes nothing the contracts speak about (its timing is not modelled)"] = true
 	default:
 		unsupported("instruction %T (%s) in %s", in, in, fx.key)
 	}
@@ -1629,4 +1658,60 @@ func rangeBound(li *loopInfo, a *ssa.Alloc) ssa.Value {
 		}
 	}
 	return nil
+}
+
+// loopInvariantBound: v is computed outside the loop, is a constant, or is len(x) of a local x the loop never assigns.
+func (fx *FnExec) loopInvariantBound(li *loopInfo, v ssa.Value) bool {
+	if _, ok := v.(*ssa.Const); ok {
+		return true
+	}
+	in, ok := v.(ssa.Instruction)
+	if !ok {
+		return true // parameter, free variable
+	}
+	if in.Block() == nil || !li.blocks[in.Block()] {
+		return true
+	}
+	if call, ok := v.(*ssa.Call); ok {
+		if b, ok := call.Call.Value.(*ssa.Builtin); ok && b.Name() == "len" && len(call.Call.Args) == 1 {
+			if ld, ok := call.Call.Args[0].(*ssa.UnOp); ok && ld.Op == token.MUL {
+				if a, ok := ld.X.(*ssa.Alloc); ok && !a.Heap {
+					for _, c := range li.cells {
+						if c == a {
+							return false
+						}
+					}
+					if _, isSlice := a.Type().(*types.Pointer).Elem().Underlying().(*types.Slice); isSlice {
+						return true
+					}
+				}
+			}
+		}
+	}
+	return false
+}
+
+func spawnKey(c *ssa.CallCommon) string {
+	if c.IsInvoke() {
+		return ifaceMethodKey(c.Method)
+	}
+	if f := c.StaticCallee(); f != nil {
+		return funcKey(f)
+	}
+	return "<dynamic>"
+}
+
+func (fx *FnExec) spawnIsEffectFree(c *ssa.CallCommon) bool {
+	key := spawnKey(c)
+	if ct := fx.g.contracts[key]; ct != nil {
+		if ct.Modifies != nil {
+			ms := ct.Modifies.ResolveIn(fx, nil)
+			return !ms.All && len(ms.Keys) == 0 && len(ms.At) == 0
+		}
+	}
+	if f := c.StaticCallee(); f != nil && len(f.Blocks) > 0 {
+		ms := fx.g.eff.of(f)
+		return !ms.All && len(ms.Keys) == 0
+	}
+	return false
 }
